@@ -55,7 +55,7 @@ theorem C02_references (s : Inst) (room : Nat) (b : Batch) :
     obtain ⟨e, he, hrow, prev, hok, hp⟩ := day_new_refs hx hnew
     exact ⟨e, he, hrow, prev, hok.none_ok, fun p h => (hp p h).1⟩
   · intro x hx hgone
-    rcases day_removed_refs hx hgone with ⟨r, hr, hm, hok⟩ | ⟨e, he, hk, p, hp, hok⟩
+    rcases day_removed_refs hx hgone with ⟨r, hr, hm, hok⟩ | ⟨e, he, hk, p, hp, hok, _⟩
     · exact Or.inl ⟨r, hr, hm, hok.none_ok⟩
     · exact Or.inr ⟨e, he, hk, p, hp, hok.none_ok⟩
 
@@ -73,6 +73,118 @@ theorem C02_deletion_logs (s : Inst) (room : Nat) (b : Batch) :
   · intro t ht hnew
     obtain ⟨r, hr, he, hok⟩ := day_new_edge_log ht hnew
     exact ⟨r, hr, he, hok.none_ok⟩
+
+/-! ## 1b. the full statement for any setting of the switches, per kind of record
+
+`Defects.rowsChecked d` / `Defects.refsChecked d`: the checks that bear on rows and node deletion records /
+on references and reference deletion records are all in place. The statements are those of section 1, word for word.
+They apply to `Defects.asImplemented` as soon as its switches of that kind are off (`by decide`), without any guard. -/
+
+/-- **C02 (rows), for every setting of the switches in which the row checks are in place.** -/
+theorem C02_rows_when (d : Defects) (c : d.rowsChecked = true) (s : Inst) (room : Nat) (b : Batch) (hn : NodupIds s.nodes) :
+    (∀ x ∈ (syncDay d s room b).1.nodes, x ∉ s.nodes →
+      ∃ n ∈ b.nodes, n.row = x ∧ NodeOk (st2 d s room b) room n) ∧
+    (∀ x ∈ s.nodes, x ∉ (syncDay d s room b).1.nodes →
+      (∃ r ∈ b.nodeDels, x.room = some r.entry.room ∧ x.id = r.entry.id ∧
+        NodeDelOk (st1 d s room b) room r) ∨
+      (∃ n ∈ b.nodes, n.row.id = x.id ∧ localRow (st2 d s room b).nodes n.row.id = some x ∧
+        NodeOk (st2 d s room b) room n)) ∧
+    (∀ t ∈ (syncDay d s room b).1.nodeLog, t ∉ s.nodeLog →
+      ∃ r ∈ b.nodeDels, r.entry = t ∧ NodeDelOk (st1 d s room b) room r) := by
+  refine ⟨?_, ?_, ?_⟩
+  · intro x hx hnew
+    obtain ⟨n, hn', hrow, hok⟩ := day_new_rows hx hnew
+    exact ⟨n, hn', hrow, hok.of_checked c⟩
+  · intro x hx hgone
+    rcases day_removed_rows hn hx hgone with ⟨r, hr, h1, h2, hok⟩ | ⟨n, hn', h1, h2, hok⟩
+    · exact Or.inl ⟨r, hr, h1, h2, hok.of_checked c⟩
+    · exact Or.inr ⟨n, hn', h1, h2, hok.of_checked c⟩
+  · intro t ht hnew
+    obtain ⟨r, hr, he, hok⟩ := day_new_node_log ht hnew
+    exact ⟨r, hr, he, hok.of_checked c⟩
+
+/-- **C02 (references), for every setting of the switches in which the reference checks are in place.** -/
+theorem C02_references_when (d : Defects) (c : d.refsChecked = true) (s : Inst) (room : Nat) (b : Batch) :
+    (∀ x ∈ (syncDay d s room b).1.edges, x ∉ s.edges →
+      ∃ e ∈ b.edges, e.row = x ∧ ∃ prev, EdgeOk (st3 d s room b) room prev e ∧
+        ∀ p, prev = some p → edgeKeyEq e.row p = true) ∧
+    (∀ x ∈ s.edges, x ∉ (syncDay d s room b).1.edges →
+      (∃ r ∈ b.edgeDels, edgeMatches r.entry x = true ∧ EdgeDelOk s room r) ∨
+      (∃ e ∈ b.edges, edgeKeyEq e.row x = true ∧ ∃ p, edgeKeyEq e.row p = true ∧
+        EdgeOk (st3 d s room b) room (some p) e)) ∧
+    (∀ t ∈ (syncDay d s room b).1.edgeLog, t ∉ s.edgeLog →
+      ∃ r ∈ b.edgeDels, r.entry = t ∧ EdgeDelOk s room r) := by
+  refine ⟨?_, ?_, ?_⟩
+  · intro x hx hnew
+    obtain ⟨e, he, hrow, prev, hok, hp⟩ := day_new_refs hx hnew
+    exact ⟨e, he, hrow, prev, hok.of_checked c, fun p h => (hp p h).1⟩
+  · intro x hx hgone
+    rcases day_removed_refs hx hgone with ⟨r, hr, hm, hok⟩ | ⟨e, he, hk, p, hp, hok, _⟩
+    · exact Or.inl ⟨r, hr, hm, hok.of_checked c⟩
+    · exact Or.inr ⟨e, he, hk, p, hp, hok.of_checked c⟩
+  · intro t ht hnew
+    obtain ⟨r, hr, he, hok⟩ := day_new_edge_log ht hnew
+    exact ⟨r, hr, he, hok.of_checked c⟩
+
+/-- **C02, the full statement for every setting `d` of the switches, on the batches that pass the guard of `d`.**
+    `dayGuardD d` excludes, record by record, exactly the shapes that `d` leaves unchecked (a switch that is
+    off contributes nothing: `dayGuardD_none`). The six conclusions are those of `C02_rows`,
+    `C02_references` and `C02_deletion_logs`, at full strength. -/
+theorem C02_full_of (d : Defects) (s : Inst) (room : Nat) (b : Batch) (hn : NodupIds s.nodes)
+    (g : dayGuardD d s room b = true) :
+    (∀ x ∈ (syncDay d s room b).1.nodes, x ∉ s.nodes →
+      ∃ n ∈ b.nodes, n.row = x ∧ NodeOk (st2 d s room b) room n) ∧
+    (∀ x ∈ s.nodes, x ∉ (syncDay d s room b).1.nodes →
+      (∃ r ∈ b.nodeDels, x.room = some r.entry.room ∧ x.id = r.entry.id ∧
+        NodeDelOk (st1 d s room b) room r) ∨
+      (∃ n ∈ b.nodes, n.row.id = x.id ∧ localRow (st2 d s room b).nodes n.row.id = some x ∧
+        NodeOk (st2 d s room b) room n)) ∧
+    (∀ x ∈ (syncDay d s room b).1.edges, x ∉ s.edges →
+      ∃ e ∈ b.edges, e.row = x ∧ ∃ prev, EdgeOk (st3 d s room b) room prev e ∧
+        ∀ p, prev = some p → edgeKeyEq e.row p = true) ∧
+    (∀ x ∈ s.edges, x ∉ (syncDay d s room b).1.edges →
+      (∃ r ∈ b.edgeDels, edgeMatches r.entry x = true ∧ EdgeDelOk s room r) ∨
+      (∃ e ∈ b.edges, edgeKeyEq e.row x = true ∧ ∃ p, edgeKeyEq e.row p = true ∧
+        EdgeOk (st3 d s room b) room (some p) e)) ∧
+    (∀ t ∈ (syncDay d s room b).1.nodeLog, t ∉ s.nodeLog →
+      ∃ r ∈ b.nodeDels, r.entry = t ∧ NodeDelOk (st1 d s room b) room r) ∧
+    (∀ t ∈ (syncDay d s room b).1.edgeLog, t ∉ s.edgeLog →
+      ∃ r ∈ b.edgeDels, r.entry = t ∧ EdgeDelOk s room r) := by
+  unfold dayGuardD at g
+  simp only [Bool.and_eq_true, List.all_eq_true] at g
+  obtain ⟨⟨⟨g1, g2⟩, g3⟩, g4⟩ := g
+  have others : ∀ {p : EdgeRow}, (p ∈ (st3 d s room b).edges ∨ ∃ e' ∈ b.edges, e'.row = p) →
+      p ∈ (st3 d s room b).edges ++ b.edges.map (·.row) := by
+    intro p hm
+    rcases hm with hm | ⟨e', he', rfl⟩
+    · exact List.mem_append_left _ hm
+    · exact List.mem_append_right _ (List.mem_map_of_mem he')
+  refine ⟨?_, ?_, ?_, ?_, ?_, ?_⟩
+  · intro x hx hnew
+    obtain ⟨n, hn', hrow, hok⟩ := day_new_rows hx hnew
+    exact ⟨n, hn', hrow, hok.guarded (g3 n hn')⟩
+  · intro x hx hgone
+    rcases day_removed_rows hn hx hgone with ⟨r, hr, h1, h2, hok⟩ | ⟨n, hn', h1, h2, hok⟩
+    · exact Or.inl ⟨r, hr, h1, h2, hok.guarded (g2 r hr)⟩
+    · exact Or.inr ⟨n, hn', h1, h2, hok.guarded (g3 n hn')⟩
+  · intro x hx hnew
+    obtain ⟨e, he, hrow, prev, hok, hp⟩ := day_new_refs hx hnew
+    refine ⟨e, he, hrow, prev, hok.guarded (g4 e he) ?_, fun p h => (hp p h).1⟩
+    intro p hprev
+    exact ⟨(hp p hprev).1, others (hp p hprev).2⟩
+  · intro x hx hgone
+    rcases day_removed_refs hx hgone with ⟨r, hr, hm, hok⟩ | ⟨e, he, hk, p, hp, hok, hm⟩
+    · exact Or.inl ⟨r, hr, hm, hok.guarded (g1 r hr)⟩
+    · refine Or.inr ⟨e, he, hk, p, hp, hok.guarded (g4 e he) ?_⟩
+      intro q hq
+      cases hq
+      exact ⟨hp, others hm⟩
+  · intro t ht hnew
+    obtain ⟨r, hr, he, hok⟩ := day_new_node_log ht hnew
+    exact ⟨r, hr, he, hok.guarded (g2 r hr)⟩
+  · intro t ht hnew
+    obtain ⟨r, hr, he, hok⟩ := day_new_edge_log ht hnew
+    exact ⟨r, hr, he, hok.guarded (g1 r hr)⟩
 
 /-! ## 2. statements that hold for the code as written (any setting of the switches) -/
 
@@ -106,10 +218,10 @@ theorem C02_batch_independent_references (d : Defects) (s : Inst) (room : Nat) (
 
 /-- **batch independence (deletion records).** The verdict on a deletion record is taken on the
     tables before the stage; with distinct ids no record hides another. -/
-theorem C02_batch_independent_deletions (d : Defects) (s : Inst) (room : Nat) (recs : List InNodeDel)
+theorem C02_batch_independent_deletions (d : Defects) (s : Inst) (recs : List InNodeDel)
     (hd : (recs.map (·.entry.id)).Nodup) :
-    deleteNodes d s room recs =
-      (recs.filter fun r => nodeDelAccepted d s room r.entry).foldl (fun st r => applyNodeDel st r.entry) s := by
+    deleteNodes d s recs =
+      (recs.filter fun r => nodeDelAccepted d s r.entry).foldl (fun st r => applyNodeDel st r.entry) s := by
   unfold deleteNodes; rw [dedupDel_nodup hd]
 
 /-- **a rejected row leaves no trace**: taking it out of the batch gives the same state. -/
@@ -122,15 +234,16 @@ theorem C02_rejected_reference_no_trace (d : Defects) (s : Inst) (room : Nat) (e
     (hv : edgeAccepted d s room s.edges e = false) : (edgeStage d s room [e]).1 = s := by
   rw [edgeStage_single, hv]; rfl
 
-theorem C02_rejected_deletion_no_trace (d : Defects) (s : Inst) (room : Nat) (r : InNodeDel) (r' : InEdgeDel)
-    (hv : nodeDelAccepted d s room r.entry = false) (hv' : edgeDelAccepted d s room r'.entry = false) :
-    deleteNodes d s room [r] = s ∧ deleteEdges d s room [r'] = s := by
+theorem C02_rejected_deletion_no_trace (d : Defects) (s : Inst) (r : InNodeDel) (r' : InEdgeDel)
+    (hv : nodeDelAccepted d s r.entry = false) (hv' : edgeDelAccepted d s r'.entry = false) :
+    deleteNodes d s [r] = s ∧ deleteEdges d s [r'] = s := by
   rw [deleteNodes_single, deleteEdges_single, hv, hv']; exact ⟨rfl, rfl⟩
 
 /-- a record with an invalid signature stops the day where it stands: nothing of its stage or of a
-    later stage is applied -/
+    later stage is applied (once deletion records of other rooms are dropped from the answer — /repo after
+    findings/C02-deletion-of-other-room.patch — their signatures are not looked at any more) -/
 theorem C02_bad_signature_stops (d : Defects) (s : Inst) (room : Nat) (b : Batch)
-    (h : b.edgeDels.all (·.sigOk) = false) : syncDay d s room b = (s, .sigError .edgeDels) := by
+    (h : (keepEdgeDels d room b.edgeDels).all (·.sigOk) = false) : syncDay d s room b = (s, .sigError .edgeDels) := by
   unfold syncDay; simp [h]
 
 /-- ingestion never changes a room definition, and row ids stay unique -/
@@ -140,7 +253,11 @@ theorem C02_rooms_unchanged (d : Defects) (s : Inst) (room : Nat) (b : Batch) :
 theorem C02_ids_stay_unique (d : Defects) (s : Inst) (room : Nat) (b : Batch) (hn : NodupIds s.nodes) :
     NodupIds (syncDay d s room b).1.nodes := syncDay_nodup hn
 
-/-! ## 3. the code as written: witnesses of the deviations
+/-! ## 3. witnesses of the deviations
+
+Every witness is stated about an explicit value of the switches — `Defects.beforeFix` (/repo at 846341e: the seven
+shapes of the second series) or `Defects.beforeFixes` (/repo before the first fix) — so that it stays a theorem
+whatever `Defects.asImplemented` becomes; its last clause shows that turning the one switch off refuses the record.
 
 One world for all witnesses. Room 10: key 0 admin; one group with users 1 and 2 (from date 100),
 `A` (1): own rows only, `B` (2): own and all rows. Room 40: key 3 may write `A`. -/
@@ -184,9 +301,9 @@ def fresh : InNode := mkNode 70 10 1 300 2
 theorem C02_breaks_edgeSourceUnchecked :
     let e : EdgeRow := { src := 60, srcEnt := 1, label := 34, dst := 50, cdate := 300, key := 2 }
     let b := { noBatch with nodes := [fresh], edges := [{ row := e, sigOk := true }] }
-    e ∈ (syncDay Defects.asImplemented world 10 b).1.edges ∧
-    edgeSourceOk (st3 Defects.asImplemented world 10 b) 10 e = false ∧
-    e ∉ (syncDay { Defects.asImplemented with edgeSourceUnchecked := false } world 10 b).1.edges := by
+    e ∈ (syncDay Defects.beforeFix world 10 b).1.edges ∧
+    edgeSourceOk (st3 Defects.beforeFix world 10 b) 10 e = false ∧
+    e ∉ (syncDay { Defects.beforeFix with edgeSourceUnchecked := false } world 10 b).1.edges := by
   decide
 
 /-- key 2 replaces key 1's reference 50 -[34]-> 60 (same source, label, target) holding the
@@ -194,18 +311,18 @@ theorem C02_breaks_edgeSourceUnchecked :
 theorem C02_breaks_edgeReplaceUnchecked :
     let e : EdgeRow := { src := 50, srcEnt := 1, label := 34, dst := 60, cdate := 300, key := 2 }
     let b := { noBatch with nodes := [fresh], edges := [{ row := e, sigOk := true }] }
-    (syncDay Defects.asImplemented world 10 b).1.edges = [e] ∧
+    (syncDay Defects.beforeFix world 10 b).1.edges = [e] ∧
     canIn world 10 2 1 300 .mutateAll = false ∧
-    (syncDay { Defects.asImplemented with edgeReplaceUnchecked := false } world 10 b).1.edges = world.edges := by
+    (syncDay { Defects.beforeFix with edgeReplaceUnchecked := false } world 10 b).1.edges = world.edges := by
   decide
 
 /-- key 2 holds the all-rows right on `B` only; it overwrites key 1's `A` row 50 with a `B` row. -/
 theorem C02_breaks_entityChangeUnchecked :
     let n := mkNode 50 10 2 300 2
     let b := { noBatch with nodes := [n] }
-    n.row ∈ (syncDay Defects.asImplemented world 10 b).1.nodes ∧
+    n.row ∈ (syncDay Defects.beforeFix world 10 b).1.nodes ∧
     canIn world 10 2 1 300 .mutateAll = false ∧
-    (syncDay { Defects.asImplemented with entityChangeUnchecked := false } world 10 b).1.nodes = world.nodes := by
+    (syncDay { Defects.beforeFix with entityChangeUnchecked := false } world 10 b).1.nodes = world.nodes := by
   decide
 
 /-- **fixed in /repo 37a7f03, kept as a regression witness about `Defects.beforeFixes`.** The admin
@@ -225,17 +342,17 @@ theorem C02_breaks_roomlessReplaceUnchecked :
 theorem C02_breaks_delRoomUnchecked :
     let r : NodeDel := { room := 40, id := 60, ent := 1, mdate := 200, ddate := 300, key := 3 }
     let b := { noBatch with nodeDels := [{ entry := r, sigOk := true }] }
-    (syncDay Defects.asImplemented world 10 b).1.nodes.all (·.id ≠ 60) = true ∧
-    (syncDay { Defects.asImplemented with delRoomUnchecked := false } world 10 b).1 = world := by
+    (syncDay Defects.beforeFix world 10 b).1.nodes.all (·.id ≠ 60) = true ∧
+    (syncDay { Defects.beforeFix with delRoomUnchecked := false } world 10 b).1 = world := by
   decide
 
 /-- key 2 (all-rows right on `B` only) deletes key 1's `A` row 50 with a record that names entity `B`. -/
 theorem C02_breaks_delEntityUnchecked :
     let r : NodeDel := { room := 10, id := 50, ent := 2, mdate := 200, ddate := 300, key := 2 }
     let b := { noBatch with nodeDels := [{ entry := r, sigOk := true }] }
-    (syncDay Defects.asImplemented world 10 b).1.nodes.all (·.id ≠ 50) = true ∧
+    (syncDay Defects.beforeFix world 10 b).1.nodes.all (·.id ≠ 50) = true ∧
     canIn world 10 2 1 300 .mutateAll = false ∧
-    (syncDay { Defects.asImplemented with delEntityUnchecked := false } world 10 b).1 = world := by
+    (syncDay { Defects.beforeFix with delEntityUnchecked := false } world 10 b).1 = world := by
   decide
 
 /-- `world` plus a reference 50 -[35]-> 60 authored by key 3 (itself a foreign-source reference) -/
@@ -247,9 +364,9 @@ def world2 : Inst :=
 theorem C02_breaks_edgeDelSourceUnchecked :
     let r : EdgeDel := { room := 40, src := 50, srcEnt := 1, dst := 60, label := 35, cdate := 200, ddate := 300, key := 3 }
     let b := { noBatch with edgeDels := [{ entry := r, sigOk := true }] }
-    (syncDay Defects.asImplemented world2 40 b).1.edges = world.edges ∧
+    (syncDay Defects.beforeFix world2 40 b).1.edges = world.edges ∧
     canIn world2 10 3 1 300 .mutateSelf = false ∧
-    (syncDay { Defects.asImplemented with edgeDelSourceUnchecked := false } world2 40 b).1 = world2 := by
+    (syncDay { Defects.beforeFix with edgeDelSourceUnchecked := false } world2 40 b).1 = world2 := by
   decide
 
 /-- **fixed in /repo e73c9e7, kept as a regression witness about `Defects.beforeFixes`.** A row without
@@ -291,65 +408,36 @@ theorem C02_breaks_authEntityUnchecked :
     (syncDay { Defects.beforeFixes with authEntityUnchecked := false } wildWorld 10 b).1 = wildWorld := by
   decide
 
-/-! ## 4. the code as written, under the guard that excludes those shapes -/
+/-! ## 4. the code as written, under the guard that excludes the shapes it does not check -/
 
 /-- **C02_partial.** For the code as written (`Defects.asImplemented`), the full conclusions of
-    `C02_rows`, `C02_references`, `C02_deletion_logs` hold for every batch that passes `dayGuard`:
-    no row, reference or deletion record of a room-definition entity, no overwritten row of another entity,
-    references whose
-    source row is a local row of the synchronised room and entity and that replace no other author's
-    reference, deletion records of the synchronised room naming the entity of the row / the room of
-    the source row. What is missing relative to the full statement is exactly the seven witnesses above that
-    are stated about `Defects.asImplemented` (two more were fixed: 37a7f03, e73c9e7). -/
+    `C02_rows`, `C02_references`, `C02_deletion_logs` hold for every batch that passes `dayGuard` =
+    `dayGuardD Defects.asImplemented`: each record is excluded only for a shape whose switch is still on in
+    `Defects.asImplemented` (Model/Ingest.lean lists them one per line with the repair that closes each). What is
+    missing relative to the full statement is exactly the witnesses of section 3 whose switch is still on. -/
 theorem C02_partial (s : Inst) (room : Nat) (b : Batch) (hn : NodupIds s.nodes) (g : dayGuard s room b = true) :
     (∀ x ∈ (syncDay Defects.asImplemented s room b).1.nodes, x ∉ s.nodes →
       ∃ n ∈ b.nodes, n.row = x ∧ NodeOk (st2 Defects.asImplemented s room b) room n) ∧
     (∀ x ∈ s.nodes, x ∉ (syncDay Defects.asImplemented s room b).1.nodes →
       (∃ r ∈ b.nodeDels, x.room = some r.entry.room ∧ x.id = r.entry.id ∧
         NodeDelOk (st1 Defects.asImplemented s room b) room r) ∨
-      (∃ n ∈ b.nodes, n.row.id = x.id ∧ NodeOk (st2 Defects.asImplemented s room b) room n)) ∧
+      (∃ n ∈ b.nodes, n.row.id = x.id ∧ localRow (st2 Defects.asImplemented s room b).nodes n.row.id = some x ∧
+        NodeOk (st2 Defects.asImplemented s room b) room n)) ∧
     (∀ x ∈ (syncDay Defects.asImplemented s room b).1.edges, x ∉ s.edges →
-      ∃ e ∈ b.edges, e.row = x ∧ ∃ prev, EdgeOk (st3 Defects.asImplemented s room b) room prev e) ∧
+      ∃ e ∈ b.edges, e.row = x ∧ ∃ prev, EdgeOk (st3 Defects.asImplemented s room b) room prev e ∧
+        ∀ p, prev = some p → edgeKeyEq e.row p = true) ∧
     (∀ x ∈ s.edges, x ∉ (syncDay Defects.asImplemented s room b).1.edges →
       (∃ r ∈ b.edgeDels, edgeMatches r.entry x = true ∧ EdgeDelOk s room r) ∨
-      (∃ e ∈ b.edges, edgeKeyEq e.row x = true)) ∧
+      (∃ e ∈ b.edges, edgeKeyEq e.row x = true ∧ ∃ p, edgeKeyEq e.row p = true ∧
+        EdgeOk (st3 Defects.asImplemented s room b) room (some p) e)) ∧
     (∀ t ∈ (syncDay Defects.asImplemented s room b).1.nodeLog, t ∉ s.nodeLog →
       ∃ r ∈ b.nodeDels, r.entry = t ∧ NodeDelOk (st1 Defects.asImplemented s room b) room r) ∧
     (∀ t ∈ (syncDay Defects.asImplemented s room b).1.edgeLog, t ∉ s.edgeLog →
-      ∃ r ∈ b.edgeDels, r.entry = t ∧ EdgeDelOk s room r) := by
-  unfold dayGuard at g
-  simp only [Bool.and_eq_true, List.all_eq_true] at g
-  obtain ⟨⟨⟨g1, g2⟩, g3⟩, g4⟩ := g
-  refine ⟨?_, ?_, ?_, ?_, ?_, ?_⟩
-  · intro x hx hnew
-    obtain ⟨n, hn', hrow, hok⟩ := day_new_rows hx hnew
-    exact ⟨n, hn', hrow, hok.guarded rfl rfl (g3 n hn')⟩
-  · intro x hx hgone
-    rcases day_removed_rows hn hx hgone with ⟨r, hr, h1, h2, hok⟩ | ⟨n, hn', h1, _, hok⟩
-    · exact Or.inl ⟨r, hr, h1, h2, hok.guarded (g2 r hr)⟩
-    · exact Or.inr ⟨n, hn', h1, hok.guarded rfl rfl (g3 n hn')⟩
-  · intro x hx hnew
-    obtain ⟨e, he, hrow, prev, hok, hp⟩ := day_new_refs hx hnew
-    refine ⟨e, he, hrow, prev, hok.guarded (g4 e he) ?_⟩
-    intro p hprev
-    obtain ⟨hk, hm⟩ := hp p hprev
-    refine ⟨hk, ?_⟩
-    rcases hm with hm | ⟨e', he', rfl⟩
-    · exact List.mem_append_left _ hm
-    · exact List.mem_append_right _ (List.mem_map_of_mem he')
-  · intro x hx hgone
-    rcases day_removed_refs hx hgone with ⟨r, hr, hm, hok⟩ | ⟨e, he, hk, _⟩
-    · exact Or.inl ⟨r, hr, hm, hok.guarded (g1 r hr)⟩
-    · exact Or.inr ⟨e, he, hk⟩
-  · intro t ht hnew
-    obtain ⟨r, hr, he, hok⟩ := day_new_node_log ht hnew
-    exact ⟨r, hr, he, hok.guarded (g2 r hr)⟩
-  · intro t ht hnew
-    obtain ⟨r, hr, he, hok⟩ := day_new_edge_log ht hnew
-    exact ⟨r, hr, he, hok.guarded (g1 r hr)⟩
+      ∃ r ∈ b.edgeDels, r.entry = t ∧ EdgeDelOk s room r) :=
+  C02_full_of Defects.asImplemented s room b hn g
 
-/-- the same for /repo before the fixes 37a7f03 and e73c9e7, under the stronger guard that was needed
-    then (moreover: no row without JSON, no overwritten row without room) -/
+/-- the same for /repo before the first fixes (37a7f03, e73c9e7, 4dd7eb7), under the guard that was needed then
+    (moreover: no record of a room-definition entity, no row without JSON, no overwritten row without room) -/
 theorem C02_partial_beforeFixes (s : Inst) (room : Nat) (b : Batch) (hn : NodupIds s.nodes) (g : dayGuardBeforeFixes s room b = true) :
     (∀ x ∈ (syncDay Defects.beforeFixes s room b).1.nodes, x ∉ s.nodes →
       ∃ n ∈ b.nodes, n.row = x ∧ NodeOk (st2 Defects.beforeFixes s room b) room n) ∧
@@ -366,36 +454,19 @@ theorem C02_partial_beforeFixes (s : Inst) (room : Nat) (b : Batch) (hn : NodupI
       ∃ r ∈ b.nodeDels, r.entry = t ∧ NodeDelOk (st1 Defects.beforeFixes s room b) room r) ∧
     (∀ t ∈ (syncDay Defects.beforeFixes s room b).1.edgeLog, t ∉ s.edgeLog →
       ∃ r ∈ b.edgeDels, r.entry = t ∧ EdgeDelOk s room r) := by
-  unfold dayGuardBeforeFixes at g
-  simp only [Bool.and_eq_true, List.all_eq_true] at g
-  obtain ⟨⟨⟨g1, g2⟩, g3⟩, g4⟩ := g
-  refine ⟨?_, ?_, ?_, ?_, ?_, ?_⟩
-  · intro x hx hnew
-    obtain ⟨n, hn', hrow, hok⟩ := day_new_rows hx hnew
-    exact ⟨n, hn', hrow, hok.guardedBeforeFixes (g3 n hn')⟩
+  obtain ⟨h1, h2, h3, h4, h5, h6⟩ := C02_full_of Defects.beforeFixes s room b hn g
+  refine ⟨h1, ?_, ?_, ?_, h5, h6⟩
   · intro x hx hgone
-    rcases day_removed_rows hn hx hgone with ⟨r, hr, h1, h2, hok⟩ | ⟨n, hn', h1, _, hok⟩
-    · exact Or.inl ⟨r, hr, h1, h2, hok.guarded (g2 r hr)⟩
-    · exact Or.inr ⟨n, hn', h1, hok.guardedBeforeFixes (g3 n hn')⟩
+    rcases h2 x hx hgone with h | ⟨n, hn', e1, _, hok⟩
+    · exact Or.inl h
+    · exact Or.inr ⟨n, hn', e1, hok⟩
   · intro x hx hnew
-    obtain ⟨e, he, hrow, prev, hok, hp⟩ := day_new_refs hx hnew
-    refine ⟨e, he, hrow, prev, hok.guarded (g4 e he) ?_⟩
-    intro p hprev
-    obtain ⟨hk, hm⟩ := hp p hprev
-    refine ⟨hk, ?_⟩
-    rcases hm with hm | ⟨e', he', rfl⟩
-    · exact List.mem_append_left _ hm
-    · exact List.mem_append_right _ (List.mem_map_of_mem he')
+    obtain ⟨e, he, hrow, prev, hok, _⟩ := h3 x hx hnew
+    exact ⟨e, he, hrow, prev, hok⟩
   · intro x hx hgone
-    rcases day_removed_refs hx hgone with ⟨r, hr, hm, hok⟩ | ⟨e, he, hk, _⟩
-    · exact Or.inl ⟨r, hr, hm, hok.guarded (g1 r hr)⟩
+    rcases h4 x hx hgone with h | ⟨e, he, hk, _⟩
+    · exact Or.inl h
     · exact Or.inr ⟨e, he, hk⟩
-  · intro t ht hnew
-    obtain ⟨r, hr, he, hok⟩ := day_new_node_log ht hnew
-    exact ⟨r, hr, he, hok.guarded (g2 r hr)⟩
-  · intro t ht hnew
-    obtain ⟨r, hr, he, hok⟩ := day_new_edge_log ht hnew
-    exact ⟨r, hr, he, hok.guarded (g1 r hr)⟩
 
 /-! ## 5. non-vacuity -/
 
